@@ -30,6 +30,7 @@ mod c15;
 mod c16;
 mod c17;
 mod c17_io;
+mod c17_leak;
 mod c18;
 mod xinf;
 mod c18_arc;
